@@ -4,6 +4,7 @@ import Oq3.Driver.Lex
 import Oq3.Driver.Parse
 import Oq3.Driver.Tree
 import Oq3.Driver.Pratt
+import Oq3.Driver.Include
 import Oq3.Driver.Sema
 
 open Oq3.Driver
@@ -26,6 +27,7 @@ def main (args : List String) : IO UInt32 := do
   | ["types"] => loop stdin stdout typesLine; return 0
   | ["types-guards"] => loop stdin stdout typesGuards; return 0
   | ["symtab"] => loop stdin stdout symtabLine; return 0
+  | ["include"] => loop stdin stdout includeLine; return 0
   | ["ops"] => loop stdin stdout opsLine; return 0
   | ["pratt"] => loop stdin stdout prattLine; return 0
   | ["parse"] => loop stdin stdout parseLine; return 0
